@@ -458,6 +458,28 @@ Proof.
   - split; [discriminate | intros (_ & _ & _ & b' & Hb & _); discriminate].
 Qed.
 
+(* getIden3StateInfo2023FromDIDDocument: the FIRST Iden3StateInfo2023 entry decides, whatever
+   precedes or follows it *)
+Theorem state_info_first : forall pre p post,
+  Forall (fun v => v = VMOther) pre ->
+  state_info (pre ++ VMStateInfo p :: post) = Some p.
+Proof.
+  induction pre as [|v pre IH]; intros p post H; simpl; [reflexivity|].
+  inversion H; subst. simpl. apply IH. assumption.
+Qed.
+
+Theorem did_doc_first : forall (pre post : list vmethod) (p : option bool),
+  Forall (fun v => v = VMOther) pre ->
+  did_doc (pre ++ VMStateInfo p :: post) = DDoc (Some p).
+Proof. intros pre post p H. unfold did_doc. rewrite (state_info_first pre p post H). reflexivity. Qed.
+
+Theorem state_info_none : forall vms,
+  Forall (fun v => v = VMOther) vms -> state_info vms = None.
+Proof.
+  induction vms as [|v vms IH]; intros H; simpl; [reflexivity|].
+  inversion H; subst. apply IH. assumption.
+Qed.
+
 Section Total78.
 Variable poseidon : list Z -> Z.
 Variable q : Z.
